@@ -1596,7 +1596,7 @@ impl Property for C08 {
         "C08"
     }
     fn rule(&self) -> String {
-        "case = Q (history of <= 22/40 ops over 1-3 resources with annotations on text, on annotations, on resources/datasets/keys/data, removals; SELECT over one of the 6 result types with 0-3 constraints per level drawn from the kinds the engine implements for that type in at least one position: ID, DATA set key [op value] [AS METADATA], VALUE, TEXT literal / AS NOCASE / AS REGEX, RESOURCE [AS METADATA] [OFFSET], DATASET [AS METADATA], ANNOTATION [AS METADATA [RECURSIVE]], [A OR B (OR C)], LIMIT b e in [-4,6]^2; 0-2 nested (OPTIONAL) sub-queries linked by variable constraints ANNOTATION/RESOURCE/DATASET/KEY/DATA/TEXT ?v and RELATION ?v OP; all referents are live items of the generated store) | M (history + single-level selection; DELETE <type> or ADD ANNOTATION WITH DATA..; TARGET ?v [OFFSET]) | H (two handle collections over 0..16 built sorted/unsorted + LimitIterator over 0..n with (b,e) in [-5,7]^2). Non-trivial Q: >= 2 non-LIMIT constraints or a sub-query, and the root answer is non-empty, duplicate-free and smaller than the set of all live items of the type; non-trivial M: non-empty selection and the mutation agreed with the twin; H always. distinct = distinct case JSON.".into()
+        "case = Q (history of 13-26 / 22-44 ops over 1-3 resources with annotations on text, on annotations, on resources/datasets/keys/data, removals; SELECT over one of the 6 result types with 0-3 constraints per level drawn from the kinds the engine implements for that type in at least one position: ID, DATA set key [op value] [AS METADATA], VALUE, TEXT literal / AS NOCASE / AS REGEX, RESOURCE [AS METADATA] [OFFSET], DATASET [AS METADATA], ANNOTATION [AS METADATA [RECURSIVE]], [A OR B (OR C)], LIMIT b e in [-4,6]^2; 0-2 nested (OPTIONAL) sub-queries linked by variable constraints ANNOTATION/RESOURCE/DATASET/KEY/DATA/TEXT ?v and RELATION ?v OP; all referents are live items of the generated store) | M (history + single-level selection; DELETE <type> or ADD ANNOTATION WITH DATA..; TARGET ?v [OFFSET]) | H (two handle collections over 0..16 built sorted/unsorted + LimitIterator over 0..n with (b,e) in [-5,7]^2). Non-trivial Q: >= 2 non-LIMIT constraints or a sub-query, and the root answer is non-empty, duplicate-free and smaller than the set of all live items of the type; non-trivial M: non-empty selection and the mutation agreed with the twin; H always. distinct = distinct case JSON.".into()
     }
     fn assumptions(&self) -> Vec<String> {
         vec![
@@ -1614,7 +1614,7 @@ impl Property for C08 {
         tier.pick(400_000, 8_000_000)
     }
     fn strategy(&self, tier: Tier) -> BoxedStrategy<Case> {
-        let (max_ops, text_max, depth) = (tier.pick(22, 40), tier.pick(24, 40), 2);
+        let (max_ops, text_max, depth) = (tier.pick(26, 44), tier.pick(24, 40), 2);
         let q = (hist_strategy(max_ops, text_max), qs_strategy(depth), proptest::bool::weighted(0.12)).prop_map(|(hist, q, probe)| Case::Q(QCase { hist, q, probe }));
         let mkind = prop_oneof![
             3 => Just(MKind::Delete),
